@@ -56,8 +56,10 @@ def plan(ctx):
     for (c, l) in sizes:
         ws = wordsize(l)
         pct = rng.randint(25, 60) if ws <= 8 else rng.randint(25, 40) if ws == 10 else rng.randint(18, 26)
+        if c == 1 and l >= 3:
+            pct = rng.randint(25, 32)           # compact 3/4: more than 32 data codewords (top bit of the 6-bit count in the mode message)
         if ctx.quick and ws == 12:
-            pct = rng.randint(10, 14)
+            pct = rng.randint(6, 9)             # ISO/IEC 24778 allows 5%..95%; few check words keep TLC's parity computation short
         out.append(dict(c=c, layers=l, pct=pct, seed=rng.randrange(1, 1 << 30)))
     return out
 
@@ -115,63 +117,96 @@ def tables_of(items):
     return t
 
 
-def judge(ctx, traces, hl_events, label):
-    """traces: list of event lists, each starting with a reset event."""
+def observe_symbols(ctx, traces):
+    """traces: list of event lists, each starting with a reset event.  Returns rejected events as (event, why-part, inputs)."""
+    import bisect
     inputs = [e for t in traces for e in t]
+    if not inputs:
+        return []
     starts, i = [], 0
     for t in traces:
         starts.append(i); i += len(t)
-    bad = []
-    if inputs:
-        obs = vlib.drive(ctx, "c11", inputs, timeout=1700)
-        bad += [(obs, gi, ent) for gi, ent in vlib.validate(ctx, "Trace_Aztec", obs, stateless=False, timeout=1700)]
-        ctx.traces += len(traces)
-        c = l = 0
-        for o in obs:
-            if o["op"] == "reset":
-                c, l = o["c"], o["layers"]
-            ctx.count_case((o["op"], c, l, o["rot"], o["scale"], o["quiet"], o["faults"][:3], len(o["faults"])))
-    if hl_events:
-        hobs = vlib.drive(ctx, "c11", hl_events, timeout=1700)
-        bad += [(hobs, gi, ent) for gi, ent in vlib.validate(ctx, "Trace_Aztec", hobs, stateless=True, timeout=1700)]
-        ctx.traces += 1
-        for o in hobs:
-            ctx.count_case(("hl", o["items"]))
-    import bisect
-    for obs_list, gi, ent in bad:
-        ev = dict(obs_list[gi])
-        tag = ent[2] if len(ent) > 2 else "?"
-        if tag != "decode":
-            raise vlib.Infra("Trace_Aztec: premise of event %d (%s) does not hold - generated input is not the spec's symbol" % (gi, ev["op"]))
-        if ev["op"] == "hl":
-            hist = [hl_events[gi]]
-            where = "HighLevelDecode of script %s" % ev["items"][:6]
-        else:
-            ti = bisect.bisect_right(starts, gi) - 1
-            hist = [inputs[starts[ti]]] + ([inputs[gi]] if gi != starts[ti] else [])
-            r = inputs[starts[ti]]
-            ev.update(c=r["c"], layers=r["layers"], nd=r["nd"])
-            where = "%s %s layers=%d rot=%d scale=%d damaged=%d/%s" % (
-                ev["op"], "compact" if r["c"] else "full", r["layers"], ev["rot"], ev["scale"], len(ev["faults"]), "cap")
-        ev["rows"] = []; ev["flips"] = ev["flips"][:8]
-        vlib.reject(ctx, ev, "%s: %s -> err=%s panic=%s msg=%r, %d chars decoded (Trace_Aztec: text differs from the script's)" % (
-            label, where, ev["err"], ev["panic"], ev.get("msg", ""), len(ev["txt"])), replay_events=hist)
-    return len(bad)
+    obs = vlib.drive(ctx, "c11", inputs, timeout=1700)
+    bad = vlib.validate(ctx, "Trace_Aztec", obs, stateless=False, timeout=1700)
+    ctx.traces += len(traces)
+    c = l = 0
+    for o in obs:
+        if o["op"] == "reset":
+            c, l = o["c"], o["layers"]
+        ctx.count_case((o["op"], c, l, o["rot"], o["scale"], o["quiet"], o["faults"][:3], len(o["faults"])))
+    out = []
+    for gi, ent in bad:
+        ev = dict(obs[gi])
+        if len(ent) < 3 or ent[2] != "decode":
+            raise vlib.Infra("Trace_Aztec: premise of event %d (%s) does not hold - the input is not the spec's symbol" % (gi, ev["op"]))
+        ti = bisect.bisect_right(starts, gi) - 1
+        r = inputs[starts[ti]]
+        hist = [r] + ([inputs[gi]] if gi != starts[ti] else [])
+        ev.update(c=r["c"], layers=r["layers"], nd=r["nd"], rows=[], flips=ev["flips"][:8], damaged=len(ev["faults"]))
+        out.append((ev, "%s of a %s symbol with %d layers, rotation %d, scale %d, %d damaged codewords" % (
+            {"reset": "direct decode", "mat": "direct decode", "img": "AztecReader.Decode"}[ev["op"]],
+            "compact" if r["c"] else "full-range", r["layers"], ev["rot"], ev["scale"], len(ev["faults"])), hist))
+    return out
+
+
+def observe_scripts(ctx, hl_events):
+    if not hl_events:
+        return []
+    obs = vlib.drive(ctx, "c11", hl_events, timeout=1700)
+    bad = vlib.validate(ctx, "Trace_Aztec", obs, stateless=True, timeout=1700)
+    ctx.traces += 1
+    for o in obs:
+        ctx.count_case(("hl", o["items"]))
+    out = []
+    for gi, ent in bad:
+        ev = dict(obs[gi])
+        if len(ent) < 3 or ent[2] != "decode":
+            raise vlib.Infra("Trace_Aztec: premise of hl event %d does not hold - the bits are not the script's" % gi)
+        out.append((ev, "HighLevelDecode of script %s" % ev["items"][:6], [hl_events[gi]]))
+    return out
+
+
+PREDS = {   # predicates of known/C11.json
+    "not_located": lambda e: str(e.get("msg", "")).startswith("NotFoundException") and not e.get("txt"),
+}
+
+
+def report(ctx, rejected, label):
+    for ev, where, hist in rejected:
+        vlib.reject(ctx, ev, "%s: %s -> err=%s panic=%s msg=%r, %d characters returned (Trace_Aztec: not the script's text)" % (
+            label, where, ev["err"], ev["panic"], ev.get("msg", ""), len(ev["txt"])), replay_events=hist, preds=PREDS)
+
+
+def hl_event(x):
+    return dict(BLANK, op="hl", items=x["items"], bits=x["hl"], nbits=x["nhl"])
 
 
 def run(ctx):
     rng = random.Random(ctx.seed * 7 + 5)
-    scripts = design_checks(ctx)
     cases = plan(ctx)
-    syms = gen_symbols(ctx, cases)
-    traces, hl, seen = [], [], set()
+    vlib.build_harness(ctx, "c11")
+    t0 = time.time()
+    stamp = {}
+
+    def message_layer():        # design checks, then every explored script through the real HighLevelDecode
+        scripts = design_checks(ctx)
+        stamp["design"] = time.time() - t0
+        return scripts, observe_scripts(ctx, [hl_event(x) for x in scripts])
+
+    def symbols():              # reference symbols from TLC, then every decode of them
+        syms = gen_symbols(ctx, cases)
+        stamp["generation"] = time.time() - t0
+        traces = [symbol_events(ctx, s, rng) for s in syms]
+        return syms, observe_symbols(ctx, traces) + observe_scripts(ctx, [hl_event(s) for s in syms])
+
+    with concurrent.futures.ThreadPoolExecutor(max_workers=2) as ex:
+        fa, fb = ex.submit(message_layer), ex.submit(symbols)
+        (scripts, rej_a), (syms, rej_b) = fa.result(), fb.result()
+    report(ctx, rej_b + rej_a, "reference symbol")
+    ctx.extra["phase_s"] = {k: round(v, 1) for k, v in stamp.items()}
+    seen = set()
     for s in syms:
-        traces.append(symbol_events(ctx, s, rng))
-        hl.append(dict(BLANK, op="hl", items=s["items"], bits=s["hl"], nbits=s["nhl"]))
         seen |= tables_of(s["items"])
-    for sc in scripts:
-        hl.append(dict(BLANK, op="hl", items=sc["items"], bits=sc["hl"], nbits=sc["nhl"]))
-    judge(ctx, traces, hl, "reference symbol")
     sizes = sorted({(s["c"], s["layers"]) for s in syms})
     ctx.extra["sizes"] = ["%s%d" % ("C" if c else "F", l) for c, l in sizes]
     ctx.extra["encodings_in_symbols"] = sorted(seen)
@@ -196,7 +231,7 @@ def replay(ctx, path):
     r = json.load(open(path))
     ins = r["inputs"]
     if ins and ins[0]["op"] == "hl":
-        judge(ctx, [], ins, "replay")
+        report(ctx, observe_scripts(ctx, ins), "replay")
     else:
-        judge(ctx, [ins], [], "replay")
+        report(ctx, observe_symbols(ctx, [ins]), "replay")
     return vlib.finish(ctx, rule="replay of one recorded decode")
